@@ -322,23 +322,14 @@ pub fn final_state(env: &RunEnvironment) -> FinalState {
     }
 }
 
-/// A session: assemble `text` (fresh thread!), attach the debugger with `script` (None = no
-/// debugger), run. Returns the environment for inspection together with the observations.
-pub enum Session {
-    NotAssembled(AsmOutcome),
-    Ran {
-        env: RunEnvironment,
-        obs: RunObs,
-        image: Image,
-    },
-}
-
-pub fn debug_session(
+/// Assemble `text` on this (fresh) thread and build the run environment exactly as the CLI does
+/// (`AsmParser::new -> parse -> backpatch -> RunEnvironment::try_from`), optionally attaching the
+/// debugger with a `--command` script. Minimal output mode is switched on.
+pub fn build_env(
     text: &str,
     stack: bool,
     script: Option<String>,
-    cfg: RunCfg,
-) -> Session {
+) -> Result<(RunEnvironment, Image), AsmOutcome> {
     init_features(stack);
     lace::set_minimal(true);
     // The debugger keeps `&'static str` into the source: leak it for the life of the thread.
@@ -349,33 +340,32 @@ pub fn debug_session(
     // Assemble once for the image description...
     let image = match assemble_static(src) {
         AsmOutcome::Ok(img) => img,
-        other => return Session::NotAssembled(other),
+        other => return Err(other),
     };
-    // ...and once more (after the documented reset) for the environment, as the CLI does.
+    // ...and once more (after the documented reset) for the environment.
     lace::reset_state();
+    verif::install(Monitor {
+        armed: true,
+        ..Default::default()
+    });
     let built = guard(|| -> Result<RunEnvironment, miette::Report> {
         let mut air = AsmParser::new(src)?.parse()?;
         air.backpatch()?;
         RunEnvironment::try_from(air, script.map(|s| lace::debugger::Options { command: Some(s) }))
     });
-    let mut env = match built {
-        Ok(Ok(env)) => env,
-        Ok(Err(report)) => {
-            return Session::NotAssembled(match diag_of("emit", report) {
-                Ok(d) => AsmOutcome::Rejected(d),
-                Err(abort) => AsmOutcome::Crashed {
-                    stage: "render-diagnostic",
-                    abort,
-                },
-            })
-        }
-        Err(abort) => {
-            return Session::NotAssembled(AsmOutcome::Crashed {
-                stage: "try_from",
+    verif::take();
+    match built {
+        Ok(Ok(env)) => Ok((env, image)),
+        Ok(Err(report)) => Err(match diag_of("emit", report) {
+            Ok(d) => AsmOutcome::Rejected(d),
+            Err(abort) => AsmOutcome::Crashed {
+                stage: "render-diagnostic",
                 abort,
-            })
-        }
-    };
-    let obs = run_env(&mut env, cfg);
-    Session::Ran { env, obs, image }
+            },
+        }),
+        Err(abort) => Err(AsmOutcome::Crashed {
+            stage: "try_from",
+            abort,
+        }),
+    }
 }
